@@ -349,6 +349,8 @@ def run(res, tier, seed):
     cases += [(ep, ts, vals, "float", 1) for ep, ts, vals in SEEDS]
     for i in range(nrand):
         ep, ts, vals = rand_ns_case(rng)
+        if i % 4 != 3 and i % 5 == 0 and vals:
+            vals[rng.randrange(len(vals))] = float("nan")          # a NaN sample satisfies none of the four comparisons (seed C07-6: 'below' computed as not 'aboveequal')
         cases.append(with_thr(ep, ts, vals, "int" if i % 4 == 3 else "float", i // 4 if i % 8 in (3, 6) else None))
     lines = []
     for ep, ts, vals, _, thr in cases:
@@ -358,6 +360,8 @@ def run(res, tier, seed):
     out = C.run_model(lines)
     for n, (ep, ts, vals, dt, thr) in enumerate(cases):
         res.count("threshold:dtype=%s,thr=%s" % (dt, "integer" if thr == int(thr) else "fractional"))
+        if any(v != v for v in vals):
+            res.count("threshold:with_nan_sample")
         for j, m in enumerate(METHODS):
             kept = [METHODS[m](v, thr) for v in vals]
             res.case((tuple(ep), tuple(ts), tuple(kept)), nontrivial=len(ts) >= 2 and any(kept) and not all(kept))
